@@ -217,6 +217,8 @@ pub struct TransferStats {
     pub audios_served: Vec<Uuid>,
     /// downloads requested and not yet applied: (class 0 mesh / 1 image / 2 audio, id, downloads under way)
     pub pending: Vec<(u8, Uuid, usize)>,
+    /// downloads dropped on arrival because a newer download of the asset had arrived before (all so far, in order)
+    pub dropped: Vec<(u8, Uuid)>,
 }
 
 pub fn transfer_stats(world: &World) -> Option<TransferStats> {
